@@ -46,6 +46,11 @@ func applyBoth(op ref.Op, in []*ref.T, exact bool) core.Verdict {
 	if msg := wellFormed(got, g); msg != "" {
 		return core.Fail("%s on %v: %s", op, shapesStr(in), msg)
 	}
+	for i := range rin {
+		if ok, msg := core.ExactEq(rt.Read(rin[i]), in[i]); !ok {
+			return core.Fail("%s on %v changed its operand %d: %s", op, shapesStr(in), i, msg)
+		}
+	}
 	var same bool
 	var msg string
 	if exact {
@@ -477,6 +482,42 @@ func longShapes(thorough bool) [][]int {
 	return out
 }
 
+// statTol: condition-aware tolerance of a statistic of xs. Sum/Avg: relative to
+// the sum of magnitudes. Var/Std: a backward-stable algorithm has relative
+// error about n*eps*kappa with kappa = sqrt(1 + mean^2/var) (two-pass and
+// Welford do much better; the naive one-pass formula loses everything once
+// kappa^2*eps ~ 1); extrema are exact.
+func statTol(kind string, xs []float64, exp float64) float64 {
+	n := float64(len(xs))
+	abs := 0.
+	for _, x := range xs {
+		abs += math.Abs(x)
+	}
+	switch kind {
+	case "Max", "Min":
+		return 0
+	case "Sum":
+		return 1e-12*abs + 1e-300
+	case "Avg", "Mean":
+		return 1e-12*abs/n + 1e-300
+	}
+	mean := ref.Stat("Avg", xs)
+	v := ref.Stat("Var", xs)
+	floor := n * math.Pow(4.5e-16*math.Abs(mean), 2) // rounding of the mean itself
+	if v == 0 {
+		if kind == "Std" {
+			return math.Sqrt(floor) + 1e-300
+		}
+		return floor + 1e-300
+	}
+	kappa := math.Sqrt(1 + mean*mean/v)
+	rel := 1e-9 + 1e-14*n*kappa
+	if kind == "Std" {
+		return math.Abs(exp)*rel + math.Sqrt(floor) + 1e-300
+	}
+	return math.Abs(exp)*rel + floor + 1e-300
+}
+
 func checkC05(c *core.Ctx) {
 	kinds := []string{"Sum", "Max", "Min", "Avg", "Var", "Std", "Mean"}
 	global := func(t tensor.Tensor, k string) float64 {
@@ -507,6 +548,15 @@ func checkC05(c *core.Ctx) {
 			return ref.Map(enum.Generic(s, 53, 0.5, 3, false), func(x float64) float64 { return -x })
 		}},
 		{"constant", func(s []int) *ref.T { return ref.FullOf(s, 1.25) }},
+		{"offset1e8", func(s []int) *ref.T {
+			return ref.Map(enum.Generic(s, 55, 0.5, 4, true), func(x float64) float64 { return 1e8 + x })
+		}},
+		{"offset-7e8", func(s []int) *ref.T {
+			return ref.Map(enum.Generic(s, 56, 0.5, 6, true), func(x float64) float64 { return -7e8 - math.Abs(x) })
+		}},
+		{"offset3e9", func(s []int) *ref.T {
+			return ref.Map(enum.Generic(s, 57, 0.5, 4, true), func(x float64) float64 { return 3e9 + math.Round(x*2)/2 })
+		}},
 		{"tie", func(s []int) *ref.T {
 			t := enum.Generic(s, 54, 0.5, 3, true)
 			if len(t.V) >= 2 {
@@ -529,9 +579,8 @@ func checkC05(c *core.Ctx) {
 				for _, k := range kinds {
 					exp := ref.Stat(k, x.V)
 					got := global(rx, k)
-					tol := 1e-9 * scaleOf(x) * scaleOf(x) * float64(len(x.V))
-					if math.IsNaN(got) || math.Abs(got-exp) > tol {
-						return core.Fail("%s() of %v = %v, expected %v", k, x, got, exp)
+					if tol := statTol(k, x.V, exp); math.IsNaN(got) || math.Abs(got-exp) > tol {
+						return core.Fail("%s() of %v = %v, expected %v (tolerance %.3g)", k, shortT(x), got, exp, tol)
 					}
 				}
 				return core.Pass()
@@ -547,8 +596,22 @@ func checkC05(c *core.Ctx) {
 						if err != nil {
 							return core.Fail("%s on %v: %v", op, s, err)
 						}
-						if ok, msg := core.Close(rt.Read(got), exp, scaleOf(x)*scaleOf(x)*float64(s[d])); !ok {
-							return core.Fail("%s on %v (%s values): %s", op, s, md.name, msg)
+						g := rt.Read(got)
+						if !ref.SameShape(g.Shape, exp.Shape) {
+							return core.Fail("%s on %v: shape %v, expected %v", op, s, g.Shape, exp.Shape)
+						}
+						bad := ""
+						buf := make([]float64, s[d])
+						ref.Fibres(x, d, func(ro int, offs []int) {
+							for i, o := range offs {
+								buf[i] = x.V[o]
+							}
+							if tol := statTol(ref.StatKind(k), buf, exp.V[ro]); bad == "" && (math.IsNaN(g.V[ro]) || math.Abs(g.V[ro]-exp.V[ro]) > tol) {
+								bad = fmt.Sprintf("fibre %d %v: got %v, expected %v (tolerance %.3g)", ro, buf, g.V[ro], exp.V[ro], tol)
+							}
+						})
+						if bad != "" {
+							return core.Fail("%s on %v (%s values): %s", op, s, md.name, bad)
 						}
 					}
 					return core.Pass()
